@@ -32,9 +32,9 @@ Profile profile_for(const std::string &c) {
         set(p.w_script, {{LIFE, 40}, {MSG, 14}, {SETEVAL, 6}, {CTX, 8}, {REG, 6}, {SUBS, 3}, {BATCH, 2}});
         p.mod_flag_bits = 1; p.src_kinds = 2; p.hooks_all = true; p.sub_flag_bits = 2 | 4 | 16;   // (batched / low-priority events: handlers also run when a pill hands them over)
     } else if (c == "C02") {
-        set(p.w_driver, {{LIFE, 14}, {MSG, 40}, {SUBS, 18}, {REG, 4}, {BURST, 1}});
-        set(p.w_script, {{LIFE, 14}, {MSG, 36}, {SUBS, 10}, {CTX, 12}, {REG, 2}, {BURST, 1}});
-        p.mod_flag_bits = 1; p.src_kinds = 0; p.sub_flag_bits = 2 | 4;
+        set(p.w_driver, {{LIFE, 14}, {MSG, 40}, {SUBS, 18}, {REG, 4}, {BURST, 1}, {BATCH, 3}});
+        set(p.w_script, {{LIFE, 14}, {MSG, 36}, {SUBS, 10}, {CTX, 12}, {REG, 2}, {BURST, 1}, {BATCH, 2}});
+        p.mod_flag_bits = 1; p.src_kinds = 0; p.sub_flag_bits = 1 | 2 | 4 | 16;   // (one-shot and low-priority subscriptions, batching: messages held back / subscriptions changing while a message is in flight)
     } else if (c == "C03") {
         set(p.w_driver, {{LIFE, 10}, {MSG, 14}, {SUBS, 8}, {SRC, 34}, {ENV, 26}, {REG, 3}});
         set(p.w_script, {{LIFE, 10}, {MSG, 12}, {SRC, 10}, {ENV, 12}, {CTX, 12}, {ERRNO, 22}, {SUBS, 4}});
@@ -158,6 +158,7 @@ struct Gen {
                 // event is handed over later (with the next invocation), so its membership is not observable in between: not generated there
                 if ((camp == "C09" || camp == "C03") && (fl & 1)) fl &= ~16L;
                 if (batching_mode) fl &= ~1L;
+                if (camp == "C02" && !batching_mode) fl &= ~16L;   // C02: either held-back messages (batching, low priority) or one-shot subscriptions, not both in one program
                 long mod = rmod(), topic = rtopic(true);
                 p.add(where, "sub", {mod, topic, fl});
                 if (camp == "C16" && remembered_subs.size() < 6) remembered_subs.push_back({mod, topic, fl});
@@ -228,6 +229,7 @@ struct Gen {
             break;
         case BATCH:
             if (camp == "C09" && !batching_mode) { gen_op(where, SRC, in_cb); break; }
+            if (camp == "C02" && !batching_mode) { gen_op(where, MSG, in_cb); break; }
             if (r.chance(0.6)) p.add(where, "batch_size", {rmod(), (long)(r.chance(0.2) ? 0 : r.range(1, 5))});
             else p.add(where, "batch_timeout", {rmod(), (long)(r.chance(0.2) ? 0 : r.range(2, 7))});
             break;
@@ -309,6 +311,7 @@ Program gen_core(const std::string &campaign, uint64_t seed, bool thorough) {
     if (campaign == "C20") p.set("filefds", r.chance(0.5) ? 1 : 0);   // every third user descriptor is one epoll refuses
     g.tasks_in_program = (campaign == "C04" ? r.chance(0.6) : r.chance(0.3)) && (g.pf.src_kinds & 32);   // (only where task sources can be generated at all)
     if (campaign == "C09" && r.chance(0.3)) { g.batching_mode = true; g.tasks_in_program = false; }
+    if (campaign == "C02" && r.chance(0.4)) g.batching_mode = true;
     g.full_bursts = thorough ? r.chance(0.6) : r.chance(0.25);
     p.set("tasks", g.tasks_in_program ? 1 : 0);
     bool dispatch_mode = r.chance(0.4);
